@@ -3,7 +3,7 @@
    ccd.py / cmos.py / mkid.py / apd.py (to_dict, from_dict), detector.py (dispatch), photon.py (sub-keys),
    models/util.py (load_detector body shape). *)
 From Coq Require Import ZArith List Bool String Ascii.
-From PyxelV Require Import Model.Codec Proofs.Codec.
+From PyxelV Require Import Model.Codec Proofs.Codec Model.CodecTree Proofs.CodecTree.
 From PyxelGen Require Import Gen_C18.
 Import ListNotations.
 Open Scope string_scope.
@@ -16,37 +16,30 @@ Open Scope string_scope.
 Definition C18_roundtrip_full : Prop :=
   forall T, roundtrip_on via_dict wf_shape src_tables T all_fields.
 Definition C18_file_roundtrip_full : Prop :=
-  forall T, roundtrip_on via_file wf_shape src_tables T all_fields.
+  forall T, roundtrip_on (via_file src_tables) wf_shape src_tables T all_fields.
 (* after the load-detector model every container of the running detector is the file's *)
 Definition C18_load_replaces_full : Prop := load_replaces src_tables.
 
 (* ------------------------------------------------------------------ what holds of the current code *)
 
-(* the containers for which the regenerated tables round-trip: all of them for CCD/CMOS/APD ... *)
-Theorem C18_roundtrip_fields_CCD_CMOS_APD :
-  ok_fields src_tables CCD = all_fields /\ ok_fields src_tables CMOS = all_fields /\
-  ok_fields src_tables APD = all_fields.
-Proof. vm_compute. repeat split. Qed.
-Print Assumptions C18_roundtrip_fields_CCD_CMOS_APD.
+(* the regenerated tables round-trip EVERY container of every type (MKID's phase included: C18-F9 repaired) *)
+Theorem C18_roundtrip_fields : forall T, ok_fields src_tables T = all_fields.
+Proof. intros T. destruct T; vm_compute; reflexivity. Qed.
+Print Assumptions C18_roundtrip_fields.
 
-(* ... and all but `phase` for MKID *)
-Theorem C18_roundtrip_fields_MKID :
-  ok_fields src_tables MKID = [FPhoton; FPixel; FSignal; FImage; FData; FChargeArray; FChargeFrame; FScene].
-Proof. vm_compute. reflexivity. Qed.
-Print Assumptions C18_roundtrip_fields_MKID.
-
-(* dictionary route, every type, every subset of initialised containers; restricted to processed-data /
-   scene / 3-D photon keys without '#' (strict_dict) and to the containers of ok_fields *)
+(* dictionary route, every type, every subset of initialised containers, ALL containers.  What is left of the
+   restriction (strict_dict) names exactly the defects that are still open: a '#' in a group name, and a
+   variable whose dtype / shape does not survive Dataset.to_dict()'s nested lists *)
 Theorem C18_roundtrip_partial :
-  forall T, roundtrip_on via_dict strict_dict src_tables T (ok_fields src_tables T).
+  forall T, roundtrip_on via_dict strict_dict src_tables T all_fields.
 Proof. intros T. apply codec_sound_dict. destruct T; vm_compute; reflexivity. Qed.
 Print Assumptions C18_roundtrip_partial.
 
-(* file route (to_asdf / from_asdf conversions included): additionally the cluster table must carry the
-   default row labels 0..n-1 (strict_file) *)
+(* file route (to_asdf / from_asdf conversions included): the SAME hypotheses - the cluster table may carry any
+   row labels (C18-frame-row-labels repaired: the backend stores them) *)
 Theorem C18_file_roundtrip_partial :
-  forall T, roundtrip_on via_file strict_file src_tables T (ok_fields src_tables T).
-Proof. intros T. apply codec_sound_file. destruct T; vm_compute; reflexivity. Qed.
+  forall T, roundtrip_on (via_file src_tables) strict_dict src_tables T all_fields.
+Proof. intros T. apply codec_sound_file_kept; [reflexivity | destruct T; vm_compute; reflexivity]. Qed.
 Print Assumptions C18_file_roundtrip_partial.
 
 (* the key escaping '/' -> '#' is injective on the keys that the partial theorems admit ... *)
@@ -62,11 +55,52 @@ Theorem C18_escape_lossy :
 Proof. intros k. apply replace_not_inv. discriminate. Qed.
 Print Assumptions C18_escape_lossy.
 
+(* the GROUP STRUCTURE of a tree survives whatever its dtypes are: every group - also one that holds no data variable
+   (coordinates only, attributes only, nothing) - comes back under its own path with every entry (variable /
+   coordinate name + dims in order, attribute), shape and value it had; `tree_trip` is what from_dict receives *)
+Theorem C18_tree_structure_kept :
+  forall m, keys_nohash m = true -> paths_closed m = true ->
+  keyed_skeleton (tree_trip slash hash m) = keyed_skeleton m.
+Proof. exact (tree_trip_skeleton slash hash). Qed.
+Print Assumptions C18_tree_structure_kept.
+
+Theorem C18_tree_trip_is_the_data_route :
+  forall m, m <> [] ->
+  dec src_tables FData (Some (hash, slash)) (backend_conv (enc src_tables FData (Some (slash, hash)) (Some (PKeyed m)))) =
+  Some (PKeyed (tree_trip slash hash m)).
+Proof. exact (dec_enc_data_is_tree_trip src_tables). Qed.
+Print Assumptions C18_tree_trip_is_the_data_route.
+
+(* the NESTING itself: a tree (any depth, any number of groups, with or without content) is flattened into
+   {path: group} (DataTree.to_dict), its paths are escaped '/' -> '#', unescaped, and the tree is rebuilt
+   (DataTree.from_dict, creating groups along each path): the same tree comes back, for ALL trees whose sibling names
+   are distinct and whose names are non-empty and contain neither '/' (xarray guarantees both) nor '#' *)
+Theorem C18_tree_nesting_invertible :
+  forall t, wf_tree t = true -> names_free_of slash t = true -> names_free_of hash t = true ->
+  tree_from_dict slash hash (tree_to_dict slash hash t) = t.
+Proof. intros t. apply tree_roundtrip. reflexivity. Qed.
+Print Assumptions C18_tree_nesting_invertible.
+
+(* hence two different trees never share a dictionary *)
+Theorem C18_tree_flattening_injective :
+  forall t1 t2,
+  wf_tree t1 = true -> names_free_of slash t1 = true -> names_free_of hash t1 = true ->
+  wf_tree t2 = true -> names_free_of slash t2 = true -> names_free_of hash t2 = true ->
+  tree_to_dict slash hash t1 = tree_to_dict slash hash t2 -> t1 = t2.
+Proof. intros t1 t2. apply tree_to_dict_injective. reflexivity. Qed.
+Print Assumptions C18_tree_flattening_injective.
+
+(* every group is an entry of the dictionary, whatever it holds *)
+Theorem C18_every_group_is_a_key :
+  forall t p ds, In (p, ds) (flat t) -> In (replace_char slash hash (render p), ds) (tree_to_dict slash hash t).
+Proof. exact (every_group_is_an_escaped_key slash hash). Qed.
+Print Assumptions C18_every_group_is_a_key.
+
 (* ------------------------------------------------------------------ refutations (witnesses) *)
 Definition an_arr : arr := mk_arr "float64" [1%Z; 2%Z] [4607182418800017408%Z; 0%Z].
 Definition no_props : pfield -> items := fun _ => [].
 
-(* F9: an MKID whose only initialised container is `phase` *)
+(* (formerly F9) an MKID whose only initialised container is `phase` *)
 Definition mkid_with_phase : detector :=
   mk_det MKID no_props (cont_of [(FPhase, PArr an_arr)]).
 (* a CCD whose processed data has a group named "a#b" *)
@@ -76,15 +110,12 @@ Definition ccd_with_hash_group : detector :=
 Definition ccd_with_relabelled_cluster : detector :=
   mk_det CCD no_props (cont_of [(FChargeFrame, PFrame [1%Z] [("number", mk_arr "float64" [1%Z] [4617315517961601024%Z])])]).
 
-Theorem C18_roundtrip_refuted_mkid_phase : ~ C18_roundtrip_full.
-Proof.
-  intros H. destruct (H MKID mkid_with_phase eq_refl) as [d' [E [_ [_ Q]]]].
-  - intros f. destruct f; vm_compute; intuition congruence.
-  - vm_compute in E. inversion E; subst d'; clear E.
-    specialize (Q FPhase). vm_compute in Q. assert (X : None = Some (PArr an_arr)) by (apply Q; auto 10).
-    discriminate X.
-Qed.
-Print Assumptions C18_roundtrip_refuted_mkid_phase.
+(* a CCD whose processed data holds a uint8 variable (the dtype is not stored: it reloads as int64) *)
+Definition ccd_with_uint8_variable : detector :=
+  mk_det CCD no_props (cont_of [(FData, PKeyed [("/", []); ("/a", [("var:v|k", mk_arr "uint8" [2%Z] [1%Z; 2%Z])])])]).
+(* a CCD whose processed data holds a variable of shape (0, 2) (the shape is not stored: the reload raises) *)
+Definition ccd_with_empty_2d_variable : detector :=
+  mk_det CCD no_props (cont_of [(FData, PKeyed [("/", []); ("/a", [("var:v|z,k", mk_arr "float64" [0%Z; 2%Z] [])])])]).
 
 Theorem C18_roundtrip_refuted_hash_key :
   ~ roundtrip_on via_dict wf_shape src_tables CCD [FData].
@@ -96,33 +127,46 @@ Proof.
 Qed.
 Print Assumptions C18_roundtrip_refuted_hash_key.
 
-Theorem C18_file_roundtrip_refuted_row_labels :
-  ~ roundtrip_on via_file wf_shape src_tables CCD [FChargeFrame].
+Theorem C18_roundtrip_refuted_dtype_not_stored :
+  ~ roundtrip_on via_dict wf_shape src_tables CCD [FData].
 Proof.
-  intros H. destruct (H ccd_with_relabelled_cluster eq_refl) as [d' [E [_ [_ Q]]]].
+  intros H. destruct (H ccd_with_uint8_variable eq_refl) as [d' [E [_ [_ Q]]]].
   - intros f. destruct f; vm_compute; intuition congruence.
   - vm_compute in E. inversion E; subst d'; clear E.
-    specialize (Q FChargeFrame (or_introl eq_refl)). vm_compute in Q. discriminate Q.
+    specialize (Q FData (or_introl eq_refl)). vm_compute in Q. discriminate Q.
 Qed.
-Print Assumptions C18_file_roundtrip_refuted_row_labels.
+Print Assumptions C18_roundtrip_refuted_dtype_not_stored.
 
-(* F10: load_detector.  The full statement holds iff the body stores every container into the PASSED
-   detector (valid for whatever the body is now) ... *)
+Theorem C18_roundtrip_refuted_shape_not_stored :
+  ~ roundtrip_on via_dict wf_shape src_tables CCD [].
+Proof.
+  intros H. destruct (H ccd_with_empty_2d_variable eq_refl) as [d' [E _]].
+  - intros f. destruct f; vm_compute; intuition congruence.
+  - vm_compute in E. discriminate E.
+Qed.
+Print Assumptions C18_roundtrip_refuted_shape_not_stored.
+
+(* F10 (repaired): load_detector.  The full statement holds iff the body stores every container into the PASSED
+   detector (valid for whatever the body is) ... *)
 Theorem C18_load_replaces_iff :
   C18_load_replaces_full <->
   forallb (fun f => existsb (field_eqb f) (t_load_assigned src_tables)) all_fields = true.
 Proof. exact (load_replaces_iff src_tables). Qed.
 Print Assumptions C18_load_replaces_iff.
 
-(* ... the current body stores nothing (it rebinds the parameter name): refuted, and in fact a no-op *)
-Theorem C18_load_replaces_refuted : ~ C18_load_replaces_full.
-Proof. rewrite C18_load_replaces_iff. vm_compute. discriminate. Qed.
-Print Assumptions C18_load_replaces_refuted.
+(* ... and the current body does *)
+Theorem C18_load_replaces : C18_load_replaces_full.
+Proof. apply C18_load_replaces_iff. vm_compute. reflexivity. Qed.
+Print Assumptions C18_load_replaces.
 
-Theorem C18_load_is_noop :
-  forall running file f, d_cont (load_detector_effect src_tables running file) f = d_cont running f.
-Proof. apply load_noop. vm_compute. reflexivity. Qed.
-Print Assumptions C18_load_is_noop.
+(* save_detector ... load_detector inside a pipeline: whatever the running detector holds when the load model
+   executes, the models after it see every container of the detector that was saved *)
+Theorem C18_load_sees_saved :
+  forall T d running, d_kind d = T -> (forall f, strict_dict T f (d_cont d f)) ->
+  exists loaded, from_dict src_tables (via_file src_tables (to_dict src_tables d)) = Some loaded /\
+                 forall f, d_cont (load_detector_effect src_tables running loaded) f = d_cont d f.
+Proof. intros T. apply load_sees_saved_all; destruct T; vm_compute; reflexivity. Qed.
+Print Assumptions C18_load_sees_saved.
 
 (* ------------------------------------------------------------------ non-vacuity *)
 (* a CCD with a 3-D photon, pixel, image, charge array + cluster table, scene and processed data initialised
@@ -132,19 +176,66 @@ Definition rich_ccd : detector :=
     (cont_of [(FPhoton, PKeyed [("coords", [("wavelength|wavelength", an_arr)]); ("data", [("", an_arr)])]);
               (FPixel, PArr an_arr); (FImage, PArr (mk_arr "uint16" [1%Z; 2%Z] [3%Z; 4%Z]));
               (FChargeArray, PArr an_arr);
-              (FChargeFrame, PFrame [0%Z; 1%Z] [("number", mk_arr "float64" [2%Z] [1%Z; 2%Z])]);
-              (FScene, PKeyed [("/", []); ("/list/0", [("var:x|ref", an_arr)])]);
-              (FData, PKeyed [("/", []); ("/foo/bar", [("var:v|k", an_arr)])])]).
+              (FChargeFrame, PFrame [3%Z; 7%Z] [("number", mk_arr "float64" [2%Z] [1%Z; 2%Z])]);
+              (FScene, PKeyed [("/", []); ("/list", []); ("/list/0", [("var:x|ref", an_arr)])]);
+              (FData, PKeyed [("/", []); ("/foo", [("attr:only=s:attributes", mk_arr "-" [] [])]); ("/foo/bar", [("var:v|k", an_arr)]);
+                              ("/foo/empty", [])])]).
 
-Example C18_rich_ccd_meets_hypotheses : forall f, strict_file CCD f (d_cont rich_ccd f).
+Example C18_rich_ccd_meets_hypotheses : forall f, strict_dict CCD f (d_cont rich_ccd f).
 Proof. intros f. destruct f; vm_compute; intuition congruence. Qed.
 
 Example C18_rich_ccd_roundtrips :
-  option_map (fun d' => det_eqb d' rich_ccd) (from_dict src_tables (via_file (to_dict src_tables rich_ccd))) = Some true.
+  option_map (fun d' => det_eqb d' rich_ccd) (from_dict src_tables (via_file src_tables (to_dict src_tables rich_ccd))) = Some true.
 Proof. vm_compute. reflexivity. Qed.
 
-Example C18_mkid_phase_lost :
-  option_map (fun d' => d_cont d' FPhase) (from_dict src_tables (to_dict src_tables mkid_with_phase)) = Some None.
+(* a tree with a coordinate-only parent, an attribute-only group and an empty leaf meets the hypotheses of
+   C18_tree_structure_kept, and the model returns it unchanged *)
+Definition a_tree : keyed :=
+  [("/", [("attr:title=s:t", mk_arr "-" [] [])]);
+   ("/stat", [("coord:time|time", mk_arr "float64" [2%Z] [1%Z; 2%Z])]);
+   ("/stat/pix", [("var:mean|time", mk_arr "float32" [2%Z] [3%Z; 4%Z])]);
+   ("/prov", [("attr:run=i:42", mk_arr "-" [] [])]);
+   ("/prov/empty", [])].
+Example C18_a_tree_meets_hypotheses : keys_nohash a_tree = true /\ paths_closed a_tree = true.
+Proof. vm_compute. split; reflexivity. Qed.
+Example C18_a_tree_groups_kept :
+  map fst (tree_trip slash hash a_tree) = ["/"; "/stat"; "/stat/pix"; "/prov"; "/prov/empty"].
+Proof. vm_compute. reflexivity. Qed.
+
+(* a_tree as a nested tree (depth 2, variable-less groups): it meets the hypotheses of C18_tree_nesting_invertible,
+   its flattening is a_tree, and a deeper one (depth 4 through empty groups) as well *)
+Definition a_nested : dtree :=
+  DNode [("attr:title=s:t", mk_arr "-" [] [])]
+    [("stat", DNode [("coord:time|time", mk_arr "float64" [2%Z] [1%Z; 2%Z])]
+                [("pix", DNode [("var:mean|time", mk_arr "float32" [2%Z] [3%Z; 4%Z])] [])]);
+     ("prov", DNode [("attr:run=i:42", mk_arr "-" [] [])] [("empty", DNode [] [])])].
+Definition a_deep : dtree :=
+  DNode [] [("a b", DNode [] [("0", DNode [] [(".h", DNode [] [("x.y", DNode [("attr:k=i:1", mk_arr "-" [] [])] [])])])])].
+Example C18_a_nested_meets_hypotheses :
+  forallb (fun t => wf_tree t && names_free_of slash t && names_free_of hash t) [a_nested; a_deep] = true.
+Proof. vm_compute. reflexivity. Qed.
+Example C18_a_nested_flattens_to_a_tree : keyed_eqb (flatten_keys a_nested) a_tree = true.
+Proof. vm_compute. reflexivity. Qed.
+Example C18_a_deep_keys :
+  map fst (tree_to_dict slash hash a_deep) = ["#"; "#a b"; "#a b#0"; "#a b#0#.h"; "#a b#0#.h#x.y"].
+Proof. vm_compute. reflexivity. Qed.
+(* a '#' in a name: the rebuilt tree is a different one (the hypothesis of the theorem is needed) *)
+Example C18_hash_name_nests :
+  tree_from_dict slash hash (tree_to_dict slash hash (DNode [] [("a#b", DNode [] [])])) =
+  DNode [] [("a", DNode [] [("b", DNode [] [])])].
+Proof. vm_compute. reflexivity. Qed.
+
+(* the witnesses of the repaired defects now come back unchanged *)
+Example C18_mkid_phase_kept :
+  option_map (fun d' => det_eqb d' mkid_with_phase) (from_dict src_tables (via_dict (to_dict src_tables mkid_with_phase))) = Some true.
+Proof. vm_compute. reflexivity. Qed.
+Example C18_relabelled_cluster_kept :
+  option_map (fun d' => det_eqb d' ccd_with_relabelled_cluster)
+             (from_dict src_tables (via_file src_tables (to_dict src_tables ccd_with_relabelled_cluster))) = Some true.
+Proof. vm_compute. reflexivity. Qed.
+Example C18_load_sees_rich_ccd :
+  option_map (fun l => cont_eqb (load_detector_effect src_tables mkid_with_phase l) rich_ccd)
+             (from_dict src_tables (via_file src_tables (to_dict src_tables rich_ccd))) = Some true.
 Proof. vm_compute. reflexivity. Qed.
 
 Example C18_keys_that_occur_have_no_hash :
